@@ -17,25 +17,37 @@ CHECKS = {
     'C01': ('E1', 'explicit-state enumeration: full argument product per '
             'method class, executed on the implementation, vs reference model',
             MC + 'C01: full cartesian product of boundary alphabets for all '
-            '64 method classes (all 2^k bit combinations) x channels; '
-            'round-trip compared with the documented normalisation.',
+            '64 method classes (all 2^k bit combinations) x channels, plus '
+            'dense interior sweeps (every octet/short/channel value, every '
+            'string length 0..4200 at every UTF-8 alignment, every table / '
+            'array entry count, frames above 128 KiB), also right after '
+            'refused operations; round-trip compared with the documented '
+            'normalisation.',
             TB, '3/C01'),
     'C02': ('E1', 'explicit-state enumeration: all 8192 presence subsets x '
             'alternative values, on the implementation, vs reference model',
             MC + 'C02: all 2^13 presence subsets, every alternative value of '
             'every property against subsets of the others, pairs, the empty-'
-            'string spelling, body size x channel.', TB, '3/C02'),
+            'string spelling, body size x channel; every body size 0..69999 '
+            'and 2^k+-64, every channel, every priority and string length.',
+            TB, '3/C02'),
     'C03': ('E1', 'explicit-state enumeration of field values: boundary '
             'scalars x positions, all tree shapes <= N nodes, all L/D chains',
             MC + 'C03: every boundary scalar at three positions, every '
             'ordered tree shape up to 5 (7) nodes with every list/dict '
-            'labelling, every chain up to depth 10 (14), depth 32.', TB,
-            '3/C03'),
+            'labelling, every chain up to depth 10 (14), depth 32; '
+            'homogeneous arrays/tables of 15 element kinds for every count '
+            '0..69 and selected counts to 400 (2000) with one foreign '
+            'element; all arrays <= 3 (4) over 31 tag-letter-bearing values.',
+            TB, '3/C03'),
     'C04': ('E1', 'explicit-state enumeration (C01+C02+C03+C18 spaces); '
             'byte-for-byte comparison with an independent reference encoder',
             MC + 'C04: every output byte of every encoder entry point over '
             'the union of the C01, C02, C03 spaces and bodies/heartbeat/'
-            'protocol header equals the reference encoder.', TB, '3/C04'),
+            'protocol header equals the reference encoder; one object of '
+            'every class re-encoded after every step of an assign / mutate-'
+            'in-place script (constructed and decoded objects).', TB,
+            '3/C04'),
     'C05': ('E1', 'reference-generator enumeration of grammar-valid frames '
             '(all tags, all 8/16-bit payloads, liberties) decoded by both '
             'decoders', MC + 'C05: wire frames the library never emits, '
@@ -47,7 +59,8 @@ CHECKS = {
             MC + 'C06: every (c, r) state of every frame sequence up to '
             'length 3 (4) over a 15-frame adversarial set, every corpus '
             'frame x 9 trailers, envelope clause on every successfully '
-            'decoded input of the fault spaces.', TB +
+            'decoded input of the fault spaces (incl. relation-aware length '
+            'rewrites of 6-17 KiB frames).', TB +
             'Purity of unmarshal (C16) collapses chunkings to (c, r).',
             '3/C06'),
     'C07': ('E4', 'exhaustive crash-point enumeration: every valid corpus '
@@ -59,7 +72,10 @@ CHECKS = {
             'rewrite, small strings in envelopes) under a deterministic step '
             'budget monitor', MC + 'C08: every input of the E4 fault spaces '
             'is decoded under a step monitor (calls + jumps inside pamqp); '
-            'budget 256 + 16*len; tracemalloc peak <= 1 MiB + 1024*len.',
+            'budget 256 + 16*len; tracemalloc peak <= 256 KiB + 64*len on '
+            'the first call, <= 64 KiB retained after the result is dropped; '
+            'nested length lies per level, large dense values, relation-'
+            'aware length rewrites of 6-17 KiB frames.',
             TB + 'Work measured in interpreter-level steps, not C-level '
             'work.', '3/C08'),
     'C09': ('E4', 'exhaustive fault enumeration: single-byte corruptions, '
@@ -72,12 +88,18 @@ CHECKS = {
             'point x adversarial values (out-of-range, wrong type, non-'
             'finite, oversize, falsy non-dicts, non-boolean bits): the call '
             'raises or its output decodes to the normalised input and leaves '
-            'every other argument unchanged.', TB, '3/C10'),
+            'every other argument unchanged; dense sweeps: every integer '
+            '-66000..66000 and +-300 around 2^31/32/63/64 through 8 integer '
+            'encoders, 9x62x6x6 timestamps, Decimal coefficients -1100..1100 '
+            'x exponents, floats m*2^k for every k, every string / key / '
+            'array length 0..299.', TB, '3/C10'),
     'C11': ('E2', 'explicit-state BFS over the legacy-switch state machine '
             '(behavioural state hash) + full integer observation in every '
             'state, vs a 2-state model and the reference ladder',
             MC + 'C11: BFS over toggle events closes at 2 behavioural '
-            'states; all 3^4 (3^6) event sequences without deduplication; '
+            'states; all 6^4 (6^6) sequences over toggles + refused encode + '
+            'failed decode + encode, without deduplication, under three '
+            'observation modes (same objects re-encoded after each event); '
             'in each state all integers of [-70000, 70000] and every ladder '
             'boundary neighbourhood at four positions against the reference '
             'ladder.', TB, '3/C11'),
@@ -86,7 +108,9 @@ CHECKS = {
             'positions; repeated encoding with deep before/after snapshots',
             MC + 'C12: 720 (4320) insertion orders at 4 positions equal the '
             'sorted reference; every corpus frame/value encoded twice with '
-            'identity-and-content snapshots.', TB, '3/C12'),
+            'identity-and-content snapshots; equal-but-distinct twins '
+            '(Decimal exponents, 1/True/1.0, 0.0/-0.0, DST fold twins).', TB,
+            '3/C12'),
     'C13': ('E1', 'explicit-state enumeration: every constrained argument '
             'site x all Unicode code points / lengths / fixed-field values x '
             '3 ways, vs an independent predicate', MC + 'C13: 41 sites from '
@@ -102,19 +126,23 @@ CHECKS = {
             'setting x instants incl. every DST transition x input forms; '
             'per-child reference check + identical result digests',
             MC + 'C15: 14 TZ settings (thorough: the whole tz database) x '
-            '~26 k instants x ~12 input forms; bytes == >Q of the absolute '
+            '~26 k instants x ~12 input forms (both folds of every wall time '
+            'consecutively, through four timestamp paths); bytes == >Q of '
+            'the absolute '
             'instant, decoded value UTC-aware; SHA-256 of the whole result '
             'table identical across children.', TB, '3/C15'),
     'C16': ('E2+E3', 'explicit-state BFS over library-state snapshots + all '
             'event histories <= depth (fresh import each) vs fresh-'
             'interpreter baselines; preemption-bounded exhaustive thread '
             'schedule exploration (line-level scheduling points)',
-            MC + 'C16: BFS over 50 API events with a deep library-state '
-            'hash closes at 2 states; all histories of depth <= 2 (3) '
+            MC + 'C16: BFS over 53 API events with a deep library-state '
+            'hash closes at 2 states; all histories of depth <= 2, all '
+            'a;b;a, all depth-3 over 16 core events (thorough: all depth 3) '
             'replayed from a fresh import and compared per event with a '
             'fresh-interpreter baseline, aliasing oracle on returned '
-            'objects; 12 thread harnesses, every schedule with <= 2 (3) '
-            'preemptions at source-line granularity, results equal the '
+            'objects; 16 thread harnesses, every schedule with <= 2 (3) '
+            'preemptions at source-line granularity from a warm library and '
+            '<= 1 from a freshly imported one, results equal the '
             'sequential ones; witness harness proves real interleaving.',
             TB + 'Preemption inside a source line and C-level races are not '
             'modelled.', '3/C16'),
@@ -132,7 +160,8 @@ CHECKS = {
             'protocol vs spec-table names', MC + 'C19: iteration, dict(), '
             'len, membership, item access, attributes(), amqp_type agree '
             'with the spec-table name list and the current attribute '
-            'values.', TB, '3/C19'),
+            'values; foreign names include every key and string found among '
+            'the object\'s own values.', TB, '3/C19'),
     'C20': ('E4', 'exhaustive enumeration of header byte patterns + client '
             'procedure over every library-encoded corpus frame',
             MC + 'C20: frame_parts on every short buffer and 5^7 + 7x256x5 '
@@ -184,7 +213,8 @@ def main():
             {'name': 'E1', 'path': 'mc/corpus.py, mc/alphabets.py',
              'kind_free_text': 'product / deviation-bounded enumerator over '
              'finite alphabets, on the real code, against mc/refcodec.py'},
-            {'name': 'E2', 'path': 'mc/explore.py',
+            {'name': 'E2', 'path': 'mc/libstate.py, mc/c16events.py, '
+             'mc/props/c06.py, mc/props/c11.py',
              'kind_free_text': 'explicit-state BFS over real API events with '
              'canonical state hashing'},
             {'name': 'E3', 'path': 'mc/sched.py',
@@ -194,7 +224,9 @@ def main():
              'kind_free_text': 'cut / corruption / field-rewrite enumerator '
              'driven by the reference encoder field map'},
             {'name': 'E5', 'path': 'mc/steps.py',
-             'kind_free_text': 'deterministic line-step budget monitor'},
+             'kind_free_text': 'deterministic step budget monitor '
+             '(sys.monitoring: calls + jumps inside pamqp) with tracemalloc '
+             'peak / retained-memory bounds'},
         ],
         'checks': checks,
         'not_applicable': na,
